@@ -183,6 +183,14 @@ package schemabuilder
 //@   keeps map[string]argField, argParser             // the parsers called here write their destination, never the parser tables
 //@   assume forall k string :: (k in deref(fields)) ==> deref(fields)[k].parser != nil
 //@   assume forall k string :: (k in deref(fields)) ==> deref(fields)[k].parser.FromJSON != nil
+// C18: when the paginated resolver has an argument struct of its own, its parser always runs - also when the query supplies
+// none of those arguments (a missing required one is then rejected, optional ones arrive as nil) - on exactly the keys that
+// are not connection arguments
+//@   ghost nnested int
+//@   entry ghost nnested = 0
+//@   call dynamic#2 assert arg0 == any(nestedArgFields)
+//@   call dynamic#2 ghost nnested = nnested + 1
+//@   ensures result == nil && old(deref(nestedArgParser)) != nil ==> nnested == 1
 
 // ---- C11 (filtering): every filter field the query asks for is put into exactly one of the three evaluation groups
 // (batched / expensive / plain) - none is dropped, whatever its batch-with-fallback flag says - with its own name and field.
